@@ -514,8 +514,62 @@ def h_webhook_handler(which):
     return h
 
 
+# ----------------------------------------------------------------------------------------------------------
+# AstEval.eval(new_state_vars): the scope a trigger / filter / active expression is evaluated in.  Contract, for every
+# history of earlier calls on the same evaluator: when the expression runs, the local scope holds exactly this message's
+# variables - nothing of an earlier message (a key the earlier message had and this one lacks must be undefined, not stale) -
+# and the dictionary the caller passed is not written.
+# ----------------------------------------------------------------------------------------------------------
+def h_expression_scope(eng):
+    from . import C17 as c17
+    it, mod, ctx, S = c17.setup(eng)
+    U = "C08/AstEval.eval"
+    seen = []
+
+    def aeval(i, node):
+        def th():
+            t = ctx._fields.get("local_sym_table")
+            seen.append(dict(t) if isinstance(t, dict) else t)
+            return SV(z3.Const("expr_value", ObjS))
+        return Coro(th, "aeval")
+    installed = {"log.info": Rec(name="log.info"), "task.unique": Rec(name="task.unique")}
+    ctx._fields.update({"ast": Rec(name="parsed-expression"), "aeval": aeval, "local_sym_table": {}})
+    # Function.install_ast_funcs(ctx) ends in ctx.set_local_sym_table(table of the ast functions)
+    it.call(it.getattr_(ctx, "set_local_sym_table"), [installed], {})
+    v1, v2 = SV(z3.Const("payload1", ObjS)), SV(z3.Const("payload2", ObjS))
+    first = {"trigger_type": "event", "event_type": "ev", "brightness": v1, "only_in_first": SV(z3.Const("extra1", ObjS))}
+    second = {"trigger_type": "event", "event_type": "ev", "brightness": v2}
+    merge = bool(eng.choose(2, "merge_local"))
+    kw = {"merge_local": True} if merge else {}
+    first_in, second_in = dict(first), dict(second)
+    k1, r1 = run_catching(it, lambda: it.await_(it.call(it.getattr_(ctx, "eval"), [first_in], dict(kw))))
+    k2, r2 = run_catching(it, lambda: it.await_(it.call(it.getattr_(ctx, "eval"), [second_in], dict(kw))))
+    eng.cover(f"exit:{k1}:{k2}:{merge}")
+    eng.oblige(f"{U}/post.no-exception", k1 == "ok" and k2 == "ok" and len(seen) == 2)
+    if len(seen) != 2:
+        return
+    eng.oblige(f"{U}/frame.the-callers-dictionaries-are-not-written", first_in == first and second_in == second)
+    if not merge:
+        eng.oblige(f"{U}/frame.the-installed-function-table-is-not-written", sorted(installed) == ["log.info", "task.unique"])
+    if merge:
+        # merge_local=True (callers that want to keep earlier locals) is the documented exception: this message's values win
+        eng.oblige(f"{U}/post.merge-keeps-earlier-locals-and-this-message-wins", all(seen[1].get(k) is v for k, v in second.items()))
+        return
+    ob = eng.oblige(f"{U}/post.first-message-scope-is-exactly-its-variables", seen[0] == first)
+    if ob.status == "refuted":
+        ob.witness = {"signature": "expression-scope-not-fresh", "what": "scope"}
+    ob = eng.oblige(f"{U}/post.later-message-scope-holds-nothing-of-an-earlier-message", seen[1] == second)
+    if ob.status == "refuted":
+        ob.witness = {"signature": "expression-scope-keeps-earlier-message", "what": "scope"}
+
+
+def replay_scope(wj):
+    from replay.native import run_native
+    return run_native("c08_filter_scope", wj, timeout=120)
+
+
 def harnesses():
-    hs = []
+    hs = [Harness("AstEval.eval.scope", h_expression_scope, units=[(f"{PKG}/eval.py", "AstEval.eval"), (f"{PKG}/eval.py", "AstEval.set_local_sym_table")], replay=replay_scope)]
     for kind, path in (("Event", EV_PY), ("Mqtt", MQ_PY), ("Webhook", WH_PY)):
         hs.append(Harness(f"{kind}.update", h_update(kind), units=[(path, f"{kind}.update")]))
     hs.append(Harness("Event.event_listener", h_event_listener, units=[(EV_PY, "Event.event_listener")]))
